@@ -28,6 +28,7 @@ def client (n : String) : Option Client :=
   if n = "alice" then some { name := "alice", roles := ["rel"] }
   else if n = "bob" then some { name := "bob", roles := ["dev"] }
   else if n = "carol" then some { name := "team", subject := "/C=XX/O=verif_c06/CN=verif_c06_client_carol", roles := ["rel", "dev"] }
+  else if n = "carol2" then some { name := "team", subject := "/C=XX/O=verif_c06/CN=verif_c06_client_carol2", roles := ["rel", "dev"] }
   else if n = "dave" then some { name := "team", subject := "/C=XX/O=verif_c06/CN=verif_c06_client_dave", roles := ["rel", "dev"] }
   else none
 
@@ -76,7 +77,10 @@ def render (a : Attrs) : String :=
 def dig (d : String) : String := if d = "-" then "" else d
 
 def handle : List String → String
-  | ["rec", "srv", key, sigtype, digest, cl, fname] =>
+  | ["rec", "srv", key, sigtype, digest, cl0, fname] =>
+    -- "a>b": the same request is first made by client a (its outcome is not reported), then by b, on the one running
+    -- server; the record of a request depends on that request alone
+    let cl := (cl0.splitOn ">").getLast!
     match client cl with
     | none => "err 401 #rec:srv:unauthenticated"
     | some c =>
